@@ -297,12 +297,25 @@ func (privVal *PrivValidator) signBytesHRS(height, round int64, step int8, signB
 	signature := privVal.Sign(signBytes)
 
 	// Persist height/round/step
+	prevHeight, prevRound, prevStep := privVal.LastHeight, privVal.LastRound, privVal.LastStep
+	prevSignature, prevSignBytes := privVal.LastSignature, privVal.LastSignBytes
 	privVal.LastHeight = height
 	privVal.LastRound = round
 	privVal.LastStep = step
 	privVal.LastSignature = signature
 	privVal.LastSignBytes = signBytes
-	privVal.save()
+	if err := privVal.save(); err != nil {
+		// The signature must not leave the signer unless the record that forbids
+		// contradicting it is on disk: after a restart the old record would allow
+		// signing something else for the same height/round/step.
+		// Nothing was released, so fall back to what the file still says.
+		privVal.LastHeight = prevHeight
+		privVal.LastRound = prevRound
+		privVal.LastStep = prevStep
+		privVal.LastSignature = prevSignature
+		privVal.LastSignBytes = prevSignBytes
+		return nil, err
+	}
 
 	return signature, nil
 
